@@ -285,7 +285,10 @@ def run_case(case):
                 # is a restart rewrite in flight (its truncate executed, its flush not yet)?
                 last_trunc = max((i for i in range(k) if ops[i] == ("restart", "truncate")), default=None)
                 in_window = last_trunc is not None and not any(ops[i] == ("restart", "flush") for i in range(last_trunc, k))
-                if in_window and case.get("excl_window"):
+                # the recorded finding is the window of the shipped sequence truncate -> write -> flush: a crash before
+                # that write or before that flush (offsets 1 and 2 after the truncate); anything later is another history
+                offset = (k - last_trunc) if in_window else 0
+                if in_window and offset <= 2 and case.get("excl_window"):
                     excluded += 1
                 else:
                     rtext = open(p["restart"]).read()
@@ -297,7 +300,7 @@ def run_case(case):
                         good = False
                     if not good:
                         return {"labels": labels + ["restart-unloadable"], "nontrivial": True, "weight": evals, "keys": [f"crashviol|{k}"], "excluded_known": excluded,
-                                "violation": {"kind": "crash:restart-unloadable:" + ("rewrite-window" if in_window else "outside-rewrite"),
+                                "violation": {"kind": "crash:restart-unloadable:" + (("rewrite-window" if offset <= 2 else f"rewrite-window+{min(offset, 3)}-or-later") if in_window else "outside-rewrite"),
                                               "detail": f"{where}: {done['restart']} restart writes had completed, but the file left behind ({len(rtext)} bytes) does not load to a saved state"}}
             if shrinks and inside:
                 keys.append(f"{'.'.join(case['steps'])}|{case['mode']}|{case['pre']}|{k}")
